@@ -206,6 +206,27 @@ example : (runActs (Sys.init 1 .all) [.external (.shutdown .interrupt), .externa
 
 end system
 
+/-! ## The end of the grace period, as the source has it -/
+
+/-- **when the grace period runs out the whole process group is killed** — `terminate_child`'s timer arm, as read from unix.rs on
+    this run (`kill-group` is `libc::kill(-pid, SIGKILL)`; a kill of the leader alone is not a statement the translator knows), is
+    the model's clause for the grace timer firing; and when the process exits first nothing is signalled -/
+theorem grace_expiry_arm_is_the_models (c : Cfg) (u : U) (w : Why) (hp : u.phase = .terminating w) :
+    interpArm applyTerm guardTerm Gen.terminateChildGraceExpiredArm u = fire c u ∧
+    interpArm applyTerm guardTerm Gen.terminateChildChildExitedArm u = step c u .childExit := by
+  obtain ⟨ph, sw, is_, gs, ws, ds, ls, lsp, hits, slow, to, lk⟩ := u
+  simp only at hp
+  subst hp
+  refine ⟨?_, ?_⟩
+  · unfold Gen.terminateChildGraceExpiredArm
+    simp only [fire, interpArm, List.foldl]
+    simp only [guardTerm, applyTerm]
+    simp (config := { decide := true })
+  · unfold Gen.terminateChildChildExitedArm
+    simp only [step, interpArm, List.foldl]
+    simp only [guardTerm, applyTerm]
+    simp (config := { decide := true })
+
 /-! ## Non-vacuity -/
 example : (run { period := 1000, terminateAfter := none, grace := 300, leak := 100 } (U.spawn { period := 1000, terminateAfter := none, grace := 300, leak := 100 })
     [.time 50, .req (.shutdown (.once .hangup)), .time 100, .req (.shutdown .twice)]).2 = [.kill .hup, .kill .kill] := by decide
